@@ -54,7 +54,9 @@ pub const CONFIG_TOP_FILTER: &str = r#"{ rules: ["remove_comments"], skip_files:
 const BROKEN: &str = "BROKEN-CONTENT";
 
 fn content(path: &str, k: usize) -> String {
-    if k >= 8 {
+    // (the Luau configuration file is never broken: every file of a bundling pass reads it, and only the
+    // source that uses its alias is notified with it)
+    if k >= 8 && path != ".luaurc" {
         if path.ends_with(".json") {
             return format!("{{ \"{BROKEN}\": ");
         }
@@ -68,7 +70,10 @@ fn content(path: &str, k: usize) -> String {
             "-- main v{k}\nlocal x = require(\"./lib/x\")\nlocal y = require(\"./lib/y\")\nlocal d = require(\"./data.json\")\nlocal z = require(\"../ext/z\")\ndo end\nprint(x, y, d, z, GA, {k})\n"
         ),
         "src/lib/x.lua" => format!("-- x v{k}\nlocal y = require(\"./y\")\nreturn {{ x = {k}, y = y, g = GA }}\n"),
-        "src/sub/entry.lua" => format!("-- entry v{k}\nlocal y = require(\"../lib/y\")\nlocal z = require(\"../../ext/z\")\nprint(y, z, {k})\n"),
+        "src/sub/entry.lua" => format!("-- entry v{k}\nlocal y = require(\"../lib/y\")\nlocal z = require(\"../../ext/z\")\nlocal viaAlias = require(\"@pkg/y\")\nprint(y, z, viaAlias, {k})\n"),
+        // the alias of the Luau configuration file points at src/lib (even k) or at ext (odd k)
+        ".luaurc" => format!("{{ \"aliases\": {{ \"pkg\": \"{}\" }} }}", if k % 2 == 0 { "./src/lib" } else { "./ext" }),
+        "ext/y.lua" => format!("-- ext y v{k}\nreturn {{ y = \"ext {k}\" }}\n"),
         "src/lib/y.lua" => format!("-- y v{k}\nreturn {{ y = {k} }}\n"),
         "ext/z.lua" => format!("-- z v{k}\nreturn {{ z = {k} }}\n"),
         "src/data.json" => format!("{{ \"value\": {k}, \"list\": [1, 2, {k}] }}"),
@@ -78,7 +83,7 @@ fn content(path: &str, k: usize) -> String {
 
 fn initial_files() -> Vec<(&'static str, String)> {
     let mut v = vec![];
-    for p in ["src/a.lua", "src/sub/b.lua", "src/sub/entry.lua", "src/sub/deep/c.luau", "src/main.lua", "src/lib/x.lua", "src/lib/y.lua", "ext/z.lua", "src/data.json"] {
+    for p in ["src/a.lua", "src/sub/b.lua", "src/sub/entry.lua", "src/sub/deep/c.luau", "src/main.lua", "src/lib/x.lua", "src/lib/y.lua", "ext/z.lua", "ext/y.lua", ".luaurc", "src/data.json"] {
         v.push((p, content(p, 0)));
     }
     v.push(("out/foreign.txt", "keep me".to_string()));
@@ -140,6 +145,8 @@ pub fn alphabet(with_top_filter: bool) -> Vec<Op> {
         w("src/lib/y.lua", 1, false),
         w("ext/z.lua", 1, false),
         w("src/data.json", 1, false),
+        w(".luaurc", 1, false),
+        w(".luaurc", 2, false),
         w("src/new.lua", 1, false),
         // edits that break a file or a bundled dependency (passes made while one is present are
         // only required not to panic; the comparison resumes once every file is healthy again)
@@ -227,7 +234,14 @@ impl World {
                 self.resources.write(p(path), &c).map_err(|e| format!("{:?}", e))?;
                 self.inputs.insert(path.clone(), c);
                 if let Some(tree) = self.tree.as_mut() {
-                    if existed {
+                    if path == ".luaurc" {
+                        // the Luau configuration file is not an input of its own (whether an edit of it
+                        // alone must be noticed is not part of the property): it changes together with
+                        // the source that requires through its alias
+                        if self.inputs.contains_key("src/sub/entry.lua") {
+                            tree.source_changed(p("src/sub/entry.lua"));
+                        }
+                    } else if existed {
                         tree.source_changed(p(path));
                     } else {
                         if *also_changed {
